@@ -1,3 +1,4 @@
+import OdfProofs.Markup3
 import OdfProofs.Markup2
 
 /-!
@@ -329,5 +330,37 @@ example : wrapNode (.link 9) false false "ab cd".toList [(0, 1), (3, 5)] =
      .op 5 9 false, .txt false false "cd".toList, .cl, .txt false false []] := by decide
 -- a span with a = b+1 would duplicate text: the hypothesis `start ≤ end` is needed
 example : plainMain (wrapNode (.link 9) false false "abc".toList [(2, 1)]) ≠ "abc".toList := by decide
+
+
+/-! ### moving the end tag of a range (`set_reference_mark_end`, `insert_annotation_end`, after fix C09-F6) -/
+
+/-- **an address that matches nothing raises without partial modification**: when the insertion of the new end tag finds no
+    place, the whole operation fails — the former end tag has not been touched (the model of the code AFTER fix C09-F6; before it
+    the former tag was deleted first) -/
+theorem move_end_raises_without_modification (k lab tmp : Nat) (ins : Toks → Option Toks) (ts : Toks) (h : ins ts = none) :
+    moveEnd k lab tmp ins ts = none := by
+  unfold moveEnd; rw [h]; rfl
+
+/-- **moving the end tag keeps every character of the paragraph**, whatever way `ins` the new tag is inserted (by position, before /
+    after a match) as long as that insertion keeps every character, the former end tag being an empty element -/
+theorem move_end_keeps_every_character (k lab tmp : Nat) (hk : k ≠ 1 ∧ k ≠ 2 ∧ k ≠ 3) (ins : Toks → Option Toks) (ts ts2 : Toks)
+    (hins : ∀ r, ins ts = some r → rawAll r = rawAll ts)
+    (hempty : ∀ r i, ins ts = some r → findOp k lab r 0 = some i → rawAll (takeElem (r.drop i) 0).1 = [])
+    (h : moveEnd k lab tmp ins ts = some ts2) : rawAll ts2 = rawAll ts :=
+  rawAll_moveEnd k lab tmp hk ins ts ts2 hins hempty h
+
+/-- the insertion by position is such an insertion -/
+theorem insert_by_position_keeps_every_character (el : Toks) (he : rawAll el = []) (p : Nat) (ts ts' : Toks)
+    (h : insertPos el p ts 0 = some ts') : rawAll ts' = rawAll ts :=
+  rawAll_insertPos el he p ts 0 ts' h
+
+/-! non-vacuity: `abc def<end/> ghi`, the end (kind 9, label 5) moved to position 2: one end tag, at the new place, tail merged back -/
+example :
+    moveEnd 9 5 99 (fun ts => insertPos [.op 9 99 false, .cl] 2 ts 0)
+      [.txt false false "abc def".toList, .op 9 5 false, .cl, .txt false false " ghi".toList] =
+    some [.txt false false "ab".toList, .op 9 5 false, .cl, .txt false false "c def ghi".toList] := by decide +kernel
+example :
+    moveEnd 9 5 99 (fun ts => insertPos [.op 9 99 false, .cl] 40 ts 0)
+      [.txt false false "abc def".toList, .op 9 5 false, .cl, .txt false false " ghi".toList] = none := by decide +kernel
 
 end Odf.C09
